@@ -28,7 +28,7 @@ CHECKS = {
             "loom models std::sync/std::thread; the bounded-channel stand-in models crossbeam-channel; loom limited to 3 workers; the crate's thread-local scratch is loom::thread_local storage in the loom build (per modelled thread, hook 82b277e), call-history dependence across calls is C10's subject; the real-thread breadth part samples one OS schedule per encode and is supplementary.",
             "DESIGN.md 3 C05"),
     "C06": ("model_checking",
-            "stateless model checking of the real par.rs under loom with scripted source faults (read error at every position, out-of-range sample in every block, pairs; also after a short last block and after a short read in the middle of the input) + explicit-state exploration of the protocol model under the same fault scripts (stateright), traces replayed through the model",
+            "stateless model checking of the real par.rs under loom with scripted source faults (read error at every position, out-of-range sample in every block, pairs; also after a short last block and after a short read in the middle of the input) + explicit-state exploration of the protocol model under the same fault scripts (stateright), traces replayed through the model; real-thread part: sources that never end (the call must return within a watchdog)",
             "For every fault script and every interleaving up to the preemption bound the call must return the single-thread error kind, with no panic in any thread, no thread alive at return and no deadlock; the model adds deadlock freedom and termination for more workers/frames with unbounded preemptions.",
             "Same trusted base as C05; faults limited to the two kinds the statement names; a loom deadlock report aborts the child process and is classified from its panic journal.",
             "DESIGN.md 3 C06"),
@@ -63,7 +63,7 @@ CHECKS = {
             "Corpus of 12 (quick) / 20 (thorough) streams of 100-700 bytes; allocation failure and hangs are watched by the runner's watchdog.",
             "DESIGN.md 3 C16"),
     "C17": ("exploration",
-            "exhaustive enumeration of every public entry point of the encoding API x every argument over a boundary / wrap-around grid (others valid), incl. out-of-width samples at each block position, byte fills with every bytes-per-sample against every declared width (and with values no format has: 0, 5.., wrap-around values) and fills of every length around the capacity; domain predicate from the statement",
+            "exhaustive enumeration of every public entry point of the encoding API x every argument over a boundary / wrap-around grid (others valid), incl. out-of-width samples at each block position, StreamInfo values no constructor returns (deserialised) at the frame-level entry point, byte fills with every bytes-per-sample against every declared width (and with values no format has: 0, 5.., wrap-around values) and fills of every length around the capacity; domain predicate from the statement",
             "Every argument class the statement lists as outside the supported domain must give Err (not Ok, not a panic, not a hang) on every entry point, single- and multi-thread; plainly valid arguments must give Ok; unclassified arguments are executed and recorded but not judged.",
             "Domain predicate written from the statement; every width other than 8/12/16/20/24 counts as unsupported; block sizes also reach the frame-level entry point through FrameBuf::resize; rate 0, fills that are not a multiple of the channel count and StreamInfo/FrameBuf channel disagreement are recorded only.",
             "DESIGN.md 3 C17"),
@@ -73,12 +73,12 @@ CHECKS = {
             "Setters that return no Result (set_total_samples) are outside the statement and not probed beyond their field width; StreamInfo::new / Stream::new are probed both as returned and after their setters.",
             "DESIGN.md 3 C18"),
     "C19": ("exploration",
-            "exhaustive enumeration: TOML round trip over every 1- and 2-field deviation of the configuration; documents written by the harness with every subset (thorough: all 2^19) of the 19 leaf keys omitted, compared with a documented-defaults table; the document written from the Verified wrapper parses to the same value and no rejected document parses as Verified<Encoder>",
+            "exhaustive enumeration: TOML round trip over every 1- and 2-field deviation of the configuration; documents written by the harness with every subset (thorough: all 2^19) of the 19 leaf keys omitted, compared with a documented-defaults table; the document written from the Verified wrapper parses to the same value and no rejected document becomes a Verified<Encoder> (from_str and toml::Value::try_into)",
             "Round trip equality, default substitution for exactly the omitted leaves and agreement of verify() with the documented ranges are checked for ~9k values and for every omission subset of the 19 leaf keys (quick: subsets of size <= 3 or co-size <= 2).",
             "Values TOML cannot carry (NaN, integers >= 2^63) excluded; documents in which an enum's tag is omitted omit the whole enum (partitions / alpha can be omitted while the tag is present); defaults table written from the doc comments (multithread default true: built with feature par).",
             "DESIGN.md 3 C19"),
     "C08": ("exploration",
-            "exhaustive enumeration of every component of every stream of U_2/U_3 + G9 (encoder- and parser-produced, before/after precompute) and of constructor grids incl. the 2^32 quotient-sum switch and entries in warm-up positions; count_bits compared with three sinks",
+            "exhaustive enumeration of every component of every stream of U_2/U_3 + G9 (encoder- and parser-produced, before/after precompute) and of constructor grids incl. the 2^32 quotient-sum switch and entries in warm-up positions, and of every subframe parser::subframe accepts out of every 3-byte input (2^24) x 3 tails; count_bits compared with three sinks",
             "count_bits() is compared with the bits received by MemSink<u8>, MemSink<u64> and a counting sink for every component reachable through public accessors, and for public constructors over grids that straddle every counting shortcut in the code.",
             "Residuals above 2^29 bits are written into the counting sink only.",
             "DESIGN.md 3 C08"),
